@@ -4,9 +4,12 @@ import Mathlib.Data.List.Perm.Basic
 import Mathlib.Analysis.SpecialFunctions.Gamma.Basic
 import Mathlib.Analysis.SpecialFunctions.Log.Basic
 import Mathlib.Probability.Distributions.Beta
+import Mathlib.Analysis.Analytic.Binomial
 /-!
   Helper lemmas for property C06 (marginal likelihood / posterior predictive of the conjugate pairs).
 -/
+set_option linter.unusedSimpArgs false
+set_option linter.unnecessarySeqFocus false
 open Real
 
 namespace C06L
@@ -332,6 +335,73 @@ theorem NormalInvChiSquared_new_ok (m k v s2 : R) (hk : 0 < k.val) (hv : 0 < v.v
   simp [Gen.NormalInvChiSquared.new, h1, h2, h3]
 
 
+/-! ### Student-t predictive of the Gaussian priors -/
+
+/-- textbook log-density of the location–scale Student-t with `ν` degrees of freedom, location `μ`, squared scale `σ2` -/
+noncomputable def lnStudentT (ν μ σ2 y : ℝ) : ℝ :=
+  Real.log (Real.Gamma ((ν + 1) / 2)) - Real.log (Real.Gamma (ν / 2)) - (1 / 2) * Real.log (ν * π * σ2)
+    - ((ν + 1) / 2) * Real.log (1 + (y - μ) ^ 2 / (ν * σ2))
+
+/-- `ln_z` of the NormalGamma family as the Rust code computes it -/
+noncomputable def lnzNG (r s v : ℝ) : ℝ :=
+  (1 / 2 * v + 1 / 2) * Real.log 2 + Real.log π / 2
+    - (1 / 2 * Real.log r + (1 / 2 * v) * Real.log s - Real.log (Real.Gamma (1 / 2 * v)))
+
+theorem ng_student {r s v y μ r' s' v' : ℝ} (hr : 0 < r) (hs : 0 < s) (hv : 0 < v)
+    (hr' : r' = r + 1) (hv' : v' = v + 1) (hs' : s' = s + r * (y - μ) ^ 2 / (r + 1)) :
+    -(Real.log (2 * π) / 2) + lnzNG r' s' v' - lnzNG r s v = lnStudentT v μ (s * (r + 1) / (v * r)) y := by
+  have hr1 : 0 < r + 1 := by linarith
+  have hs1 : 0 < s + r * (y - μ) ^ 2 / (r + 1) := by positivity
+  have hπ := Real.pi_pos
+  have e1 : 1 + (y - μ) ^ 2 / (v * (s * (r + 1) / (v * r))) = (s + r * (y - μ) ^ 2 / (r + 1)) / s := by
+    field_simp
+  have e2 : v * π * (s * (r + 1) / (v * r)) = π * s * (r + 1) / r := by field_simp
+  unfold lnStudentT lnzNG
+  rw [hr', hv', hs', e1, e2, Real.log_div hs1.ne' hs.ne', Real.log_div (by positivity) hr.ne',
+    Real.log_mul (by positivity) hr1.ne', Real.log_mul hπ.ne' hs.ne', Real.log_mul (by norm_num) hπ.ne',
+    show (v + 1) / 2 = 1 / 2 * (v + 1) by ring, show v / 2 = 1 / 2 * v by ring]
+  ring
+
+/-- `ln_z` of the NormalInvGamma family as the Rust code computes it -/
+noncomputable def lnzNIG (v a b : ℝ) : ℝ :=
+  -(Real.log b * a - (Real.log v * (1 / 2) + Real.log (Real.Gamma a)))
+
+theorem nig_student {v a b y μ v' a' b' : ℝ} (hv : 0 < v) (ha : 0 < a) (hb : 0 < b)
+    (hv' : v' = v / (1 + v)) (ha' : a' = a + 1 / 2) (hb' : b' = b + (y - μ) ^ 2 / (2 * (1 + v))) :
+    -(Real.log (2 * π) / 2) + lnzNIG v' a' b' - lnzNIG v a b = lnStudentT (2 * a) μ (b * (1 + v) / a) y := by
+  have hv1 : 0 < 1 + v := by linarith
+  have hb1 : 0 < b + (y - μ) ^ 2 / (2 * (1 + v)) := by positivity
+  have hπ := Real.pi_pos
+  have e1 : 1 + (y - μ) ^ 2 / (2 * a * (b * (1 + v) / a)) = (b + (y - μ) ^ 2 / (2 * (1 + v))) / b := by
+    field_simp
+  have e2 : 2 * a * π * (b * (1 + v) / a) = 2 * π * b * (1 + v) := by field_simp
+  unfold lnStudentT lnzNIG
+  rw [hv', ha', hb', e1, e2, Real.log_div hb1.ne' hb.ne', Real.log_div hv.ne' hv1.ne',
+    Real.log_mul (by positivity) hv1.ne', Real.log_mul (by positivity) hb.ne',
+    show (2 * a + 1) / 2 = a + 1 / 2 by ring, show 2 * a / 2 = a by ring]
+  ring
+
+/-- `ln_z` of the NormalInvChiSquared family as the Rust code computes it -/
+noncomputable def lnzNIX (k v s2 : ℝ) : ℝ :=
+  Real.log k * (-(1 / 2)) + (Real.log (v * s2) * (-(1 / 2) * v) + Real.log (Real.Gamma (1 / 2 * v)))
+
+theorem nix_student {k v s2 y μ k' v' s2' : ℝ} (hk : 0 < k) (hv : 0 < v) (hs : 0 < s2)
+    (hk' : k' = k + 1) (hv' : v' = v + 1) (hs' : v' * s2' = v * s2 + k * (y - μ) ^ 2 / (k + 1)) :
+    -(Real.log π / 2) + lnzNIX k' v' s2' - lnzNIX k v s2 = lnStudentT v μ ((1 + k) * s2 / k) y := by
+  have hk1 : 0 < k + 1 := by linarith
+  have hvs : 0 < v * s2 := by positivity
+  have hvs1 : 0 < v * s2 + k * (y - μ) ^ 2 / (k + 1) := by positivity
+  have hπ := Real.pi_pos
+  have e1 : 1 + (y - μ) ^ 2 / (v * ((1 + k) * s2 / k)) = (v * s2 + k * (y - μ) ^ 2 / (k + 1)) / (v * s2) := by
+    field_simp
+    ring
+  have e2 : v * π * ((1 + k) * s2 / k) = π * (v * s2) * (k + 1) / k := by field_simp; ring
+  unfold lnStudentT lnzNIX
+  rw [hs', hk', hv', e1, e2, Real.log_div hvs1.ne' hvs.ne', Real.log_div (by positivity) hk.ne',
+    Real.log_mul (by positivity) hk1.ne', Real.log_mul hπ.ne' hvs.ne',
+    show (v + 1) / 2 = 1 / 2 * (v + 1) by ring, show v / 2 = 1 / 2 * v by ring]
+  ring
+
 /-! ### integral form of the Beta–Bernoulli marginal -/
 
 open MeasureTheory ProbabilityTheory in
@@ -387,5 +457,490 @@ theorem integral_lik_betaPDF {a b : ℝ} (ha : 0 < a) (hb : 0 < b) (k d : ℕ) :
   rw [show a + (k:ℝ) - 1 = (k:ℝ) + (a - 1) by ring, show b + (d:ℝ) - 1 = (d:ℝ) + (b - 1) by ring,
     Real.rpow_add h0, Real.rpow_add h1', Real.rpow_natCast, Real.rpow_natCast]
   ring
+
+/-! ### Gamma–Poisson: negative-binomial closed form and integral form -/
+
+open MeasureTheory in
+theorem nb_closed {a b : ℝ} (y : ℕ) {n1 n2 : ℝ} (ha : 0 < a) (hb : 0 < b) (h1 : n1 = (y : ℝ) + a) (h2 : n2 = a) :
+    Real.exp (Real.log (Real.Gamma n1) - Real.log (Real.Gamma ((y : ℝ) + 1)) - Real.log (Real.Gamma n2)
+        + Real.log (1 - 1 / (1 + b)) * a + (y : ℝ) * Real.log (1 / (1 + b)))
+      = Real.Gamma ((y : ℝ) + a) / (Real.Gamma ((y : ℝ) + 1) * Real.Gamma a) * (b / (1 + b)) ^ a * (1 / (1 + b)) ^ y := by
+  have h1b : (0:ℝ) < 1 + b := by linarith
+  have e1 : 1 - 1 / (1 + b) = b / (1 + b) := by field_simp; ring
+  have hp : 0 < b / (1 + b) := by positivity
+  have hq : 0 < 1 / (1 + b) := by positivity
+  have g1 : 0 < Real.Gamma ((y : ℝ) + a) := Real.Gamma_pos_of_pos (by positivity)
+  have g2 : 0 < Real.Gamma ((y : ℝ) + 1) := Real.Gamma_pos_of_pos (by positivity)
+  have g3 : 0 < Real.Gamma a := Real.Gamma_pos_of_pos ha
+  rw [h1, h2, e1, Real.exp_add, Real.exp_add, Real.exp_sub, Real.exp_sub, Real.exp_log g1, Real.exp_log g2,
+    Real.exp_log g3, Real.rpow_def_of_pos hp a, ← Real.rpow_natCast, Real.rpow_def_of_pos hq (y : ℝ),
+    mul_comm (y : ℝ) (Real.log _)]
+  ring
+
+/-- Poisson likelihood of one observation under rate `lam`, through the generated `Poisson::f` -/
+noncomputable def poisLik (lam : ℝ) (x : Nat) : ℝ := (Gen.Poisson.f_nat (⟨⟨lam⟩⟩ : Gen.Poisson R) x).val
+
+open MeasureTheory in
+theorem poisLik_eq (lam : ℝ) (x : Nat) :
+    poisLik lam x = Real.exp ((x : ℝ) * Real.log lam - lam - (Gen.ln_fact x : R).val) := by
+  simp only [poisLik, Gen.Poisson.f_nat, Gen.Poisson.ln_f_nat, Gen.Poisson.ln_rate, mulAdd, R.exp_val, R.sub_val,
+    R.add_val, R.mul_val, R.neg_val, R.ln_val, R.ofNatR_val]
+  ring_nf
+
+open MeasureTheory in
+theorem pois_prod_fold (lam : ℝ) (xs : List Nat) (s : Gen.PoissonSuffStat R) :
+    (xs.map (poisLik lam)).prod * Real.exp (s.sum.val * Real.log lam - (s.n : ℝ) * lam - s.sum_ln_fact.val)
+      = Real.exp ((xs.foldl Gen.PoissonSuffStat.observe_nat s).sum.val * Real.log lam
+          - ((xs.foldl Gen.PoissonSuffStat.observe_nat s).n : ℝ) * lam
+          - (xs.foldl Gen.PoissonSuffStat.observe_nat s).sum_ln_fact.val) := by
+  induction xs generalizing s with
+  | nil => simp
+  | cons x xs ih =>
+    rw [List.foldl_cons, ← ih, List.map_cons, List.prod_cons, poisLik_eq, mul_assoc, mul_left_comm, ← Real.exp_add]
+    congr 2
+    simp only [Gen.PoissonSuffStat.observe_nat, R.add_val, R.ofNatR_val]
+    push_cast
+    ring
+
+open MeasureTheory in
+theorem integral_gp {a b S n slf : ℝ} (ha : 0 < a) (hb : 0 < b) (hS : 0 ≤ S) (hn : 0 ≤ n) :
+    ∫ lam in Set.Ioi (0:ℝ), Real.exp (S * Real.log lam - n * lam - slf)
+        * Real.exp ((a * Real.log b + -Real.log (Real.Gamma a)) + ((a - 1) * Real.log lam + -(b * lam)))
+      = Real.exp (((a + S) * (-Real.log (b + n)) + Real.log (Real.Gamma (a + S)))
+          - (a * (-Real.log b) + Real.log (Real.Gamma a)) - slf) := by
+  have haS : 0 < a + S := by positivity
+  have hbn : 0 < b + n := by positivity
+  have key := Real.integral_rpow_mul_exp_neg_mul_Ioi haS hbn
+  have hcong : ∫ lam in Set.Ioi (0:ℝ), Real.exp (S * Real.log lam - n * lam - slf)
+        * Real.exp ((a * Real.log b + -Real.log (Real.Gamma a)) + ((a - 1) * Real.log lam + -(b * lam)))
+      = ∫ lam in Set.Ioi (0:ℝ), Real.exp (-slf + a * Real.log b - Real.log (Real.Gamma a))
+          * (lam ^ (a + S - 1) * Real.exp (-((b + n) * lam))) := by
+    refine setIntegral_congr_fun measurableSet_Ioi fun lam hl ↦ ?_
+    have hl' : 0 < lam := hl
+    rw [Real.rpow_def_of_pos hl', ← Real.exp_add, ← Real.exp_add, ← Real.exp_add]
+    congr 1
+    ring
+  rw [hcong, integral_const_mul, key, Real.rpow_def_of_pos (by positivity), Real.log_div one_ne_zero hbn.ne',
+    Real.log_one, ← Real.exp_log (Real.Gamma_pos_of_pos haS), ← Real.exp_add, ← Real.exp_add,
+    Real.log_exp]
+  congr 1
+  ring
+
+open ProbabilityTheory in
+theorem beta_pdf_bridge {a b θ : ℝ} (ha : 0 < a) (hb : 0 < b) (h0 : 0 < θ) (h1 : θ < 1) :
+    Real.exp (((a - 1) * Real.log θ + (b - 1) * Real.log (1 - θ))
+        - Real.log (Real.Gamma a * Real.Gamma b / Real.Gamma (a + b))) = betaPDFReal a b θ := by
+  have h1' : 0 < 1 - θ := by linarith
+  have hB := beta_pos ha hb
+  unfold ProbabilityTheory.beta at hB
+  simp only [betaPDFReal, if_pos (And.intro h0 h1), ProbabilityTheory.beta]
+  rw [Real.exp_sub, Real.exp_add, Real.exp_log hB, Real.rpow_def_of_pos h0, Real.rpow_def_of_pos h1',
+    mul_comm (a - 1), mul_comm (b - 1)]
+  ring
+
+open ProbabilityTheory in
+theorem upl_pdf_bridge {a θ : ℝ} (ha : 0 < a) (h0 : 0 < θ) (h1 : θ < 1) :
+    Real.exp (Real.log θ * (a - 1) + Real.log a) = betaPDFReal a 1 θ := by
+  have hG := Real.Gamma_pos_of_pos ha
+  simp only [betaPDFReal, if_pos (And.intro h0 h1), ProbabilityTheory.beta, sub_self, Real.rpow_zero, mul_one,
+    Real.Gamma_one, Real.Gamma_add_one ha.ne']
+  rw [Real.exp_add, Real.exp_log ha, Real.rpow_def_of_pos h0]
+  field_simp
+
+
+/-! ### negative-binomial series -/
+
+theorem asc_eq_gamma {a : ℝ} (ha : 0 < a) (n : ℕ) :
+    (ascPochhammer ℝ n).eval a = Real.Gamma (a + n) / Real.Gamma a := by
+  have hG := (Real.Gamma_pos_of_pos ha).ne'
+  induction n with
+  | zero => simp [hG]
+  | succ n ih =>
+    have han : 0 < a + n := by positivity
+    rw [ascPochhammer_succ_eval, ih, Nat.cast_succ, ← add_assoc, Real.Gamma_add_one han.ne']
+    field_simp
+
+theorem choose_eq_gamma {a : ℝ} (ha : 0 < a) (n : ℕ) :
+    Ring.choose (a + n - 1) n = Real.Gamma ((n : ℝ) + a) / (Real.Gamma ((n : ℝ) + 1) * Real.Gamma a) := by
+  rw [Ring.choose_eq_smul, Polynomial.descPochhammer_smeval_eq_ascPochhammer,
+    Polynomial.ascPochhammer_smeval_eq_eval, show a + (n : ℝ) - 1 - n + 1 = a by ring, asc_eq_gamma ha,
+    Real.Gamma_nat_eq_factorial, smul_eq_mul, add_comm a]
+  have hG := (Real.Gamma_pos_of_pos ha).ne'
+  have hf : ((n.factorial : ℕ) : ℝ) ≠ 0 := by exact_mod_cast Nat.factorial_ne_zero n
+  field_simp
+
+theorem negbin_hasSum {a p : ℝ} (ha : 0 < a) (hp0 : 0 ≤ p) (hp1 : p < 1) :
+    HasSum (fun n : ℕ => Real.Gamma ((n : ℝ) + a) / (Real.Gamma ((n : ℝ) + 1) * Real.Gamma a) * (1 - p) ^ a * p ^ n) 1 := by
+  have hball : p ∈ Metric.eball (0:ℝ) 1 := by
+    rw [Metric.mem_eball, edist_dist, dist_zero_right, Real.norm_eq_abs, abs_of_nonneg hp0]
+    exact ENNReal.ofReal_lt_one.mpr hp1
+  have h := (Real.one_div_one_sub_rpow_hasFPowerSeriesOnBall_zero a).hasSum hball
+  simp only [FormalMultilinearSeries.ofScalars_apply_eq, zero_add, smul_eq_mul] at h
+  have h1p : 0 < 1 - p := by linarith
+  have h2 := h.mul_right ((1 - p) ^ a)
+  rw [one_div, inv_mul_cancel₀ (Real.rpow_pos_of_pos h1p a).ne'] at h2
+  have e : (fun n : ℕ => Real.Gamma ((n : ℝ) + a) / (Real.Gamma ((n : ℝ) + 1) * Real.Gamma a) * (1 - p) ^ a * p ^ n)
+      = fun i : ℕ => Ring.choose (a + (i : ℝ) - 1) i * p ^ i * (1 - p) ^ a := by
+    funext n
+    rw [choose_eq_gamma ha n]
+    ring
+  rw [e]
+  exact h2
+
+/-! ### model-level helpers for Props/C06A (statistics as folds, posteriors on valid parameters, closed forms) -/
+
+abbrev BStat := Gen.BernoulliSuffStat R
+noncomputable abbrev bfold (xs : List Bool) : BStat := xs.foldl Gen.BernoulliSuffStat.observe_bool Gen.BernoulliSuffStat.new
+
+-- @site Beta.posterior_bool_Bernoulli
+theorem Beta_post_stat (pr : Gen.Beta R) (S : BStat) (hα : 0 < pr.alpha.val) (hβ : 0 < pr.beta.val) :
+    Gen.Beta.posterior_bool_Bernoulli pr (.suffStat S)
+      = ⟨pr.alpha + RealLike.ofNatR S.k, pr.beta + RealLike.ofNatR (S.n - S.k)⟩ := by
+  have h := Beta_new_ok (pr.alpha + RealLike.ofNatR S.k) (pr.beta + RealLike.ofNatR (S.n - S.k))
+    (by simp only [R.add_val, R.ofNatR_val]; positivity) (by simp only [R.add_val, R.ofNatR_val]; positivity)
+  simp only [Gen.Beta.posterior_bool_Bernoulli, Gen.BernoulliSuffStat.get_n, Gen.BernoulliSuffStat.get_k,
+    Gen.Beta.get_alpha, Gen.Beta.get_beta, h]
+
+
+-- @site BernoulliSuffStat.observe_bool
+theorem bfold_append (xs : List Bool) (y : Bool) : bfold (xs ++ [y]) = Gen.BernoulliSuffStat.observe_bool (bfold xs) y := by
+  simp [bfold, List.foldl_append]
+
+-- @site BernoulliSuffStat.observe_bool
+theorem bfold_le (xs : List Bool) : (bfold xs).k ≤ (bfold xs).n :=
+  BernStat_fold_le xs _ (by simp [Gen.BernoulliSuffStat.new])
+
+-- @site UnitPowerLaw.posterior_bool_Bernoulli
+theorem UPL_post_stat (pr : Gen.UnitPowerLaw R) (S : BStat) (hα : 0 < pr.alpha.val) :
+    Gen.UnitPowerLaw.posterior_bool_Bernoulli pr (.suffStat S)
+      = ⟨pr.alpha + RealLike.ofNatR S.k, RealLike.ofNatR (1 + (S.n - S.k))⟩ := by
+  have h := Beta_new_ok (pr.alpha + RealLike.ofNatR S.k) (RealLike.ofNatR (1 + (S.n - S.k)))
+    (by simp only [R.add_val, R.ofNatR_val]; positivity) (by simp only [R.ofNatR_val]; push_cast; positivity)
+  simp only [Gen.UnitPowerLaw.posterior_bool_Bernoulli, Gen.BernoulliSuffStat.get_n, Gen.BernoulliSuffStat.get_k,
+    Gen.UnitPowerLaw.get_alpha, h]
+
+abbrev PStat := Gen.PoissonSuffStat R
+noncomputable abbrev pfold (xs : List Nat) : PStat := xs.foldl Gen.PoissonSuffStat.observe_nat Gen.PoissonSuffStat.new
+
+-- @site Gamma.posterior_nat_Poisson
+theorem Gamma_post_stat (pr : Gen.Gamma R) (S : PStat) (hs : 0 < pr.shape.val) (hr : 0 < pr.rate.val)
+    (hsum : 0 ≤ S.sum.val) :
+    Gen.Gamma.posterior_nat_Poisson pr (.suffStat S) = ⟨pr.shape + S.sum, pr.rate + RealLike.ofNatR S.n⟩ := by
+  have h := Gamma_new_ok (pr.shape + S.sum) (pr.rate + RealLike.ofNatR S.n)
+    (by simp only [R.add_val]; positivity) (by simp only [R.add_val, R.ofNatR_val]; positivity)
+  simp only [Gen.Gamma.posterior_nat_Poisson, Gen.PoissonSuffStat.get_n, Gen.PoissonSuffStat.get_sum,
+    Gen.Gamma.get_shape, Gen.Gamma.get_rate, h]
+
+-- @site PoissonSuffStat.observe_nat
+theorem pfold_append (xs : List Nat) (y : Nat) : pfold (xs ++ [y]) = Gen.PoissonSuffStat.observe_nat (pfold xs) y := by
+  simp [pfold, List.foldl_append]
+
+-- @site PoissonSuffStat.observe_nat
+theorem pfold_sum_nonneg (xs : List Nat) : 0 ≤ (pfold xs).sum.val :=
+  PoisStat_fold_sum_nonneg xs _ (by simp only [Gen.PoissonSuffStat.new, lit0]; exact le_refl _)
+
+abbrev CStat := Gen.CategoricalSuffStat R
+noncomputable abbrev cfold (K : Nat) (xs : List Nat) : CStat :=
+  xs.foldl Gen.CategoricalSuffStat.observe_nat (Gen.CategoricalSuffStat.new K)
+
+-- @site CategoricalSuffStat.observe_nat
+theorem cfold_append (K : Nat) (xs : List Nat) (y : Nat) :
+    cfold K (xs ++ [y]) = Gen.CategoricalSuffStat.observe_nat (cfold K xs) y := by
+  simp [cfold, List.foldl_append]
+
+-- @site CategoricalSuffStat.observe_nat
+theorem cfold_inv (K : Nat) (xs : List Nat) (hxs : ∀ x ∈ xs, x < K) : CatInv K (cfold K xs) :=
+  CatInv_fold xs hxs _ (CatInv_new K)
+
+/-- posterior concentration parameters `αᵢ + cᵢ` -/
+noncomputable abbrev postAlphas (as cs : List R) : List R := (List.zip as cs).map (fun p => p.1 + p.2)
+
+theorem postAlphas_pos (as cs : List R) (hpos : ∀ a ∈ as, 0 < a.val) (hc : ∀ c ∈ cs, 0 ≤ c.val) :
+    ∀ a ∈ postAlphas as cs, 0 < a.val := by
+  intro a ha
+  simp only [postAlphas, List.mem_map] at ha
+  obtain ⟨⟨a0, c0⟩, hm, rfl⟩ := ha
+  have := List.of_mem_zip hm
+  simp only [R.add_val]
+  linarith [hpos a0 this.1, hc c0 this.2]
+
+theorem postAlphas_ne_nil (as cs : List R) (hne : as ≠ []) (hl : cs.length = as.length) : postAlphas as cs ≠ [] := by
+  cases as with
+  | nil => exact absurd rfl hne
+  | cons a as => cases cs with
+    | nil => simp at hl
+    | cons c cs => simp [postAlphas]
+
+-- @site Dirichlet.posterior_nat_Categorical
+theorem Dir_post_stat (pr : Gen.Dirichlet R) (S : CStat) (hne : pr.alphas ≠ [])
+    (hpos : ∀ a ∈ pr.alphas, 0 < a.val) (hS : CatInv pr.alphas.length S) :
+    Gen.Dirichlet.posterior_nat_Categorical pr (.suffStat S) = ⟨postAlphas pr.alphas S.counts⟩ := by
+  have h := Dirichlet_new_ok (postAlphas pr.alphas S.counts) (postAlphas_ne_nil _ _ hne hS.1)
+    (postAlphas_pos _ _ hpos hS.2.1)
+  simp only [postAlphas] at h
+  simp only [Gen.Dirichlet.posterior_nat_Categorical, Gen.Dirichlet.get_alphas, Gen.CategoricalSuffStat.get_counts, h]
+
+/-- closed form of the model's `ln_m` on a statistic -/
+-- @site Dirichlet.ln_m_with_cache_nat_Categorical
+theorem Dir_ln_m_val (pr : Gen.Dirichlet R) (S : CStat) :
+    (Gen.Dirichlet.ln_m_nat_Categorical pr (.suffStat S)).val
+      = -Real.log (Real.Gamma ((pr.alphas.map R.val).sum + (S.n : ℝ)))
+        + ((List.zip pr.alphas S.counts).map (fun p => Real.log (Real.Gamma (p.1.val + p.2.val)))).sum
+        + (Real.log (Real.Gamma (pr.alphas.map R.val).sum)
+            - (pr.alphas.map (fun a => Real.log (Real.Gamma a.val))).sum) := by
+  simp only [Gen.Dirichlet.ln_m_nat_Categorical, Gen.Dirichlet.ln_m_with_cache_nat_Categorical,
+    Gen.Dirichlet.ln_m_cache_nat_Categorical, Gen.Dirichlet.get_alphas, Gen.CategoricalSuffStat.get_n,
+    Gen.CategoricalSuffStat.get_counts, R.add_val, R.neg_val, R.sub_val, R.lgamma_val, R.sumL_val, R.ofNatR_val,
+    foldl_add_val, foldl_add_val_id, List.map_map, Function.comp_def, lit0, zero_add]
+
+-- @site Dirichlet.ln_pp_with_cache_nat_Categorical
+theorem Dir_ln_pp_val (pr : Gen.Dirichlet R) (S : CStat) (y : Nat) (hne : pr.alphas ≠ [])
+    (hpos : ∀ a ∈ pr.alphas, 0 < a.val) (hS : CatInv pr.alphas.length S) :
+    (Gen.Dirichlet.ln_pp_nat_Categorical pr y (.suffStat S)).val
+      = Real.log ((postAlphas pr.alphas S.counts).getD y RealLike.nan).val
+        - Real.log ((postAlphas pr.alphas S.counts).map R.val).sum := by
+  simp only [Gen.Dirichlet.ln_pp_nat_Categorical, Gen.Dirichlet.ln_pp_cache_nat_Categorical,
+    Gen.Dirichlet.ln_pp_with_cache_nat_Categorical, Dir_post_stat pr S hne hpos hS, Gen.Dirichlet.get_alphas,
+    idxR, R.sub_val, R.ln_val, foldl_add_val_id, lit0, zero_add]
+
+theorem postAlphas_sum (as cs : List R) (h : as.length = cs.length) :
+    ((postAlphas as cs).map R.val).sum = (as.map R.val).sum + (cs.map R.val).sum := by
+  rw [← zsum_add as cs h]
+  simp [postAlphas, List.map_map, Function.comp_def]
+
+theorem alphas_sum_pos (as : List R) (hne : as ≠ []) (hpos : ∀ a ∈ as, 0 < a.val) : 0 < (as.map R.val).sum :=
+  sum_pos_of_pos as hne hpos
+
+/-- posterior concentration parameters `α + cᵢ` -/
+noncomputable abbrev symPost (α : R) (cs : List R) : List R := cs.map (fun c => α + c)
+
+theorem symPost_pos (α : R) (cs : List R) (hα : 0 < α.val) (hc : ∀ c ∈ cs, 0 ≤ c.val) :
+    ∀ a ∈ symPost α cs, 0 < a.val := by
+  intro a ha
+  simp only [symPost, List.mem_map] at ha
+  obtain ⟨c, hm, rfl⟩ := ha
+  simp only [R.add_val]
+  linarith [hc c hm]
+
+theorem symPost_ne_nil (α : R) (cs : List R) (K : Nat) (hK : 0 < K) (hl : cs.length = K) : symPost α cs ≠ [] := by
+  cases cs with
+  | nil => simp at hl; omega
+  | cons c cs => simp [symPost]
+
+-- @site SymmetricDirichlet.posterior_nat_Categorical
+theorem SymDir_post_stat (pr : Gen.SymmetricDirichlet R) (S : CStat) (hα : 0 < pr.alpha.val) (hK : 0 < pr.k)
+    (hS : CatInv pr.k S) :
+    Gen.SymmetricDirichlet.posterior_nat_Categorical pr (.suffStat S) = ⟨symPost pr.alpha S.counts⟩ := by
+  have h := Dirichlet_new_ok (symPost pr.alpha S.counts) (symPost_ne_nil _ _ _ hK hS.1)
+    (symPost_pos _ _ hα hS.2.1)
+  simp only [symPost] at h
+  simp only [Gen.SymmetricDirichlet.posterior_nat_Categorical, Gen.SymmetricDirichlet.get_alpha,
+    Gen.CategoricalSuffStat.get_counts, h]
+
+-- @site SymmetricDirichlet.ln_m_with_cache_nat_Categorical
+theorem SymDir_ln_m_val (pr : Gen.SymmetricDirichlet R) (S : CStat) :
+    (Gen.SymmetricDirichlet.ln_m_nat_Categorical pr (.suffStat S)).val
+      = -Real.log (Real.Gamma (pr.alpha.val * (pr.k : ℝ) + (S.n : ℝ)))
+        + (S.counts.map (fun c => Real.log (Real.Gamma (pr.alpha.val + c.val)))).sum
+        + (Real.log (Real.Gamma (pr.alpha.val * (pr.k : ℝ))) - Real.log (Real.Gamma pr.alpha.val) * (pr.k : ℝ)) := by
+  simp only [Gen.SymmetricDirichlet.ln_m_nat_Categorical, Gen.SymmetricDirichlet.ln_m_with_cache_nat_Categorical,
+    Gen.SymmetricDirichlet.ln_m_cache_nat_Categorical, Gen.SymmetricDirichlet.get_alpha, Gen.SymmetricDirichlet.get_k,
+    Gen.CategoricalSuffStat.get_n, Gen.CategoricalSuffStat.get_counts, R.add_val, R.neg_val, R.sub_val, R.mul_val,
+    R.lgamma_val, R.ofNatR_val, foldl_add_val, lit0, zero_add]
+
+-- @site SymmetricDirichlet.ln_pp_with_cache_nat_Categorical
+theorem SymDir_ln_pp_val (pr : Gen.SymmetricDirichlet R) (S : CStat) (y : Nat) (hα : 0 < pr.alpha.val)
+    (hK : 0 < pr.k) (hS : CatInv pr.k S) :
+    (Gen.SymmetricDirichlet.ln_pp_nat_Categorical pr y (.suffStat S)).val
+      = Real.log ((symPost pr.alpha S.counts).getD y RealLike.nan).val
+        - Real.log ((symPost pr.alpha S.counts).map R.val).sum := by
+  simp only [Gen.SymmetricDirichlet.ln_pp_nat_Categorical, Gen.SymmetricDirichlet.ln_pp_cache_nat_Categorical,
+    Gen.SymmetricDirichlet.ln_pp_with_cache_nat_Categorical, SymDir_post_stat pr S hα hK hS, Gen.Dirichlet.get_alphas,
+    idxR, R.sub_val, R.ln_val, foldl_add_val_id, lit0, zero_add]
+
+-- @site BernoulliSuffStat.observe_nat
+theorem bern_fold_nat_eq_bool (xs : List Nat) (s : BStat) :
+    xs.foldl Gen.BernoulliSuffStat.observe_nat s = (xs.map (· == 1)).foldl Gen.BernoulliSuffStat.observe_bool s := by
+  rw [List.foldl_map]; rfl
+
+/-! ### model-level helpers for Props/C06B -/
+
+abbrev GStat := Gen.GaussianSuffStat R
+noncomputable abbrev gfold (xs : List R) : GStat := xs.foldl Gen.GaussianSuffStat.observe_real Gen.GaussianSuffStat.new
+
+-- @site GaussianSuffStat.observe_real
+theorem gfold_append (xs : List R) (y : R) : gfold (xs ++ [y]) = Gen.GaussianSuffStat.observe_real (gfold xs) y := by
+  simp [gfold, List.foldl_append]
+
+-- @site ln_z_normal_gamma
+theorem ln_z_normal_gamma_val (r s v : R) : (Gen.ln_z_normal_gamma r s v).val = lnzNG r.val s.val v.val := by
+  simp only [Gen.ln_z_normal_gamma, lnzNG, mulAdd, R.add_val, R.sub_val, R.mul_val, R.neg_val, R.ln_val,
+    R.lgamma_val, R.ln2_val, R.halfLnPi_val, lit05]
+  ring
+
+-- @site GaussianSuffStat.observe_real
+theorem GaussStat_obs_sx_nonneg (S : GStat) (y : R) (hsx : 0 ≤ S.sx.val) :
+    0 ≤ (Gen.GaussianSuffStat.observe_real S y).sx.val := by
+  have h1 : (0:ℝ) < (S.n : ℝ) + 1 := by positivity
+  have e : (Gen.GaussianSuffStat.observe_real S y).sx.val
+      = S.sx.val + (y.val - S.mean.val) ^ 2 * (S.n : ℝ) / ((S.n : ℝ) + 1) := by
+    simp only [Gen.GaussianSuffStat.observe_real, mulAdd, RealLike.recip, R.add_val, R.sub_val, R.mul_val, R.div_val,
+      R.ofNatR_val, lit1, Nat.cast_add, Nat.cast_one]
+    field_simp
+    ring
+  rw [e]; positivity
+
+/-- closed form of the NormalGamma posterior hyper-parameters on a statistic `(n, mean, sx)` -/
+-- @site posterior_from_stat_normal_gamma
+theorem NG_post_vals (pr : Gen.NormalGamma R) (S : GStat) (hr : 0 < pr.r.val) (hs : 0 < pr.s.val) (hv : 0 < pr.v.val)
+    (hsx : 0 ≤ S.sx.val) :
+    (Gen.posterior_from_stat_normal_gamma pr S).r.val = pr.r.val + (S.n : ℝ)
+    ∧ (Gen.posterior_from_stat_normal_gamma pr S).v.val = pr.v.val + (S.n : ℝ)
+    ∧ (Gen.posterior_from_stat_normal_gamma pr S).m.val
+        = (pr.m.val * pr.r.val + S.mean.val * (S.n : ℝ)) / (pr.r.val + (S.n : ℝ))
+    ∧ (Gen.posterior_from_stat_normal_gamma pr S).s.val
+        = pr.s.val + S.sx.val + pr.r.val * (S.n : ℝ) * (S.mean.val - pr.m.val) ^ 2 / (pr.r.val + (S.n : ℝ)) := by
+  have hrn : 0 < pr.r.val + (S.n : ℝ) := by positivity
+  have hrn' := hrn.ne'
+  simp only [Gen.posterior_from_stat_normal_gamma, Gen.NormalGamma.get_r, Gen.NormalGamma.get_s, Gen.NormalGamma.get_v,
+    Gen.NormalGamma.get_m, Gen.GaussianSuffStat.get_n, Gen.GaussianSuffStat.sum_x, Gen.GaussianSuffStat.sum_x_sq,
+    Gen.GaussianSuffStat.get_mean]
+  rw [NormalGamma_new_ok]
+  · refine ⟨?_, ?_, ?_, ?_⟩ <;>
+      simp only [mulAdd, R.add_val, R.sub_val, R.mul_val, R.div_val, R.neg_val, R.ofNatR_val] <;> field_simp <;> ring
+  · simp only [R.add_val, R.ofNatR_val]; exact hrn
+  · have hpos : 0 < pr.s.val + S.sx.val + pr.r.val * (S.n : ℝ) * (S.mean.val - pr.m.val) ^ 2 / (pr.r.val + (S.n : ℝ)) := by
+      positivity
+    convert hpos using 1
+    simp only [mulAdd, R.add_val, R.sub_val, R.mul_val, R.div_val, R.neg_val, R.ofNatR_val]
+    field_simp
+    ring
+  · simp only [R.add_val, R.ofNatR_val]; positivity
+
+-- @site posterior_from_stat_normal_inv_gamma
+theorem NIG_post_new (pr : Gen.NormalInvGamma R) (hv : 0 < pr.v.val) (ha : 0 < pr.a.val) (hb : 0 < pr.b.val) :
+    (Gen.posterior_from_stat_normal_inv_gamma pr Gen.GaussianSuffStat.new).v.val = pr.v.val
+    ∧ (Gen.posterior_from_stat_normal_inv_gamma pr Gen.GaussianSuffStat.new).a.val = pr.a.val
+    ∧ (Gen.posterior_from_stat_normal_inv_gamma pr Gen.GaussianSuffStat.new).b.val = pr.b.val := by
+  have hv' := hv.ne'
+  simp only [Gen.posterior_from_stat_normal_inv_gamma,
+    Gen.NormalInvGamma.emit_params, Gen.NormalInvGamma.get_m, Gen.NormalInvGamma.get_v, Gen.NormalInvGamma.get_a,
+    Gen.NormalInvGamma.get_b,
+    Gen.GaussianSuffStat.get_n, Gen.GaussianSuffStat.sum_x, Gen.GaussianSuffStat.sum_x_sq,
+    Gen.GaussianSuffStat.get_mean, Gen.GaussianSuffStat.new]
+  rw [NormalInvGamma_new_ok]
+  · refine ⟨?_, ?_, ?_⟩ <;>
+      simp only [mulAdd, RealLike.recip, R.add_val, R.sub_val, R.mul_val, R.div_val, R.neg_val, R.ofNatR_val, lit0,
+        lit05, lit1, Nat.cast_zero] <;> field_simp <;> ring
+  · simp only [RealLike.recip, R.add_val, R.div_val, R.ofNatR_val, lit1, Nat.cast_zero, add_zero]; positivity
+  · simp only [mulAdd, R.add_val, R.mul_val, R.ofNatR_val, Nat.cast_zero, zero_mul, zero_add]; exact ha
+  · convert hb using 1
+    simp only [mulAdd, RealLike.recip, R.add_val, R.sub_val, R.mul_val, R.div_val, R.neg_val, R.ofNatR_val, lit0,
+      lit05, lit1, Nat.cast_zero]
+    field_simp
+    ring
+
+-- @site ln_z_normal_inv_gamma
+theorem ln_z_normal_inv_gamma_val (v a b : R) : (Gen.ln_z_normal_inv_gamma v a b).val = lnzNIG v.val a.val b.val := by
+  simp only [Gen.ln_z_normal_inv_gamma, lnzNIG, mulAdd, R.add_val, R.sub_val, R.mul_val, R.neg_val, R.ln_val,
+    R.lgamma_val, lit05]
+  ring
+
+/-- closed form of the NormalInvGamma posterior hyper-parameters on a statistic `(n, mean, sx)` -/
+-- @site posterior_from_stat_normal_inv_gamma
+theorem NIG_post_vals (pr : Gen.NormalInvGamma R) (S : GStat) (hv : 0 < pr.v.val) (ha : 0 < pr.a.val)
+    (hb : 0 < pr.b.val) (hsx : 0 ≤ S.sx.val) :
+    (Gen.posterior_from_stat_normal_inv_gamma pr S).v.val = pr.v.val / (1 + (S.n : ℝ) * pr.v.val)
+    ∧ (Gen.posterior_from_stat_normal_inv_gamma pr S).a.val = pr.a.val + (S.n : ℝ) / 2
+    ∧ (Gen.posterior_from_stat_normal_inv_gamma pr S).m.val
+        = (pr.m.val + S.mean.val * (S.n : ℝ) * pr.v.val) / (1 + (S.n : ℝ) * pr.v.val)
+    ∧ (Gen.posterior_from_stat_normal_inv_gamma pr S).b.val
+        = pr.b.val + (S.sx.val + (S.n : ℝ) * (S.mean.val - pr.m.val) ^ 2 / (1 + (S.n : ℝ) * pr.v.val)) / 2 := by
+  have hv' := hv.ne'
+  have h1 : 0 < 1 + (S.n : ℝ) * pr.v.val := by positivity
+  have h1' := h1.ne'
+  have h2 : 0 < 1 / pr.v.val + (S.n : ℝ) := by positivity
+  have h2' := h2.ne'
+  simp only [Gen.posterior_from_stat_normal_inv_gamma,
+    Gen.NormalInvGamma.emit_params, Gen.NormalInvGamma.get_m, Gen.NormalInvGamma.get_v, Gen.NormalInvGamma.get_a,
+    Gen.NormalInvGamma.get_b,
+    Gen.GaussianSuffStat.get_n, Gen.GaussianSuffStat.sum_x, Gen.GaussianSuffStat.sum_x_sq,
+    Gen.GaussianSuffStat.get_mean]
+  rw [NormalInvGamma_new_ok]
+  · refine ⟨?_, ?_, ?_, ?_⟩ <;>
+      simp only [mulAdd, RealLike.recip, R.add_val, R.sub_val, R.mul_val, R.div_val, R.neg_val, R.ofNatR_val,
+        lit05, lit1] <;> field_simp <;> ring
+  · simp only [RealLike.recip, R.add_val, R.div_val, R.ofNatR_val, lit1]; positivity
+  · simp only [mulAdd, R.add_val, R.mul_val, R.ofNatR_val, lit05]; positivity
+  · have hpos : 0 < pr.b.val
+        + (S.sx.val + (S.n : ℝ) * (S.mean.val - pr.m.val) ^ 2 / (1 + (S.n : ℝ) * pr.v.val)) / 2 := by positivity
+    convert hpos using 1
+    simp only [mulAdd, RealLike.recip, R.add_val, R.sub_val, R.mul_val, R.div_val, R.neg_val, R.ofNatR_val,
+      lit05, lit1]
+    field_simp
+    ring
+
+-- @site NormalInvChiSquared.ln_z
+theorem NIX_ln_z_val (p : Gen.NormalInvChiSquared R) :
+    (Gen.NormalInvChiSquared.ln_z p).val = lnzNIX p.k.val p.v.val p.s2.val := by
+  simp only [Gen.NormalInvChiSquared.ln_z, lnzNIX, mulAdd, R.add_val, R.sub_val, R.mul_val, R.neg_val, R.ln_val,
+    R.lgamma_val, lit05]
+
+/-- closed form of the NormalInvChiSquared posterior hyper-parameters on a statistic `(n, mean, sx)`; the code returns
+    the prior unchanged when `n = 0`, which agrees with the closed form iff the empty statistic has `sx = 0` -/
+-- @site posterior_from_stat_normal_inv_chi_squared
+theorem NIX_post_vals (pr : Gen.NormalInvChiSquared R) (S : GStat) (hk : 0 < pr.k.val) (hv : 0 < pr.v.val)
+    (hs : 0 < pr.s2.val) (hsx : 0 ≤ S.sx.val) (hsx0 : S.n = 0 → S.sx.val = 0) :
+    (Gen.posterior_from_stat_normal_inv_chi_squared pr S).k.val = pr.k.val + (S.n : ℝ)
+    ∧ (Gen.posterior_from_stat_normal_inv_chi_squared pr S).v.val = pr.v.val + (S.n : ℝ)
+    ∧ (Gen.posterior_from_stat_normal_inv_chi_squared pr S).m.val
+        = (pr.k.val * pr.m.val + S.mean.val * (S.n : ℝ)) / (pr.k.val + (S.n : ℝ))
+    ∧ (Gen.posterior_from_stat_normal_inv_chi_squared pr S).s2.val
+        = (pr.v.val * pr.s2.val + S.sx.val
+            + (S.n : ℝ) * pr.k.val * (pr.m.val - S.mean.val) ^ 2 / (pr.k.val + (S.n : ℝ))) / (pr.v.val + (S.n : ℝ)) := by
+  have hk' := hk.ne'
+  have hv' := hv.ne'
+  by_cases hn : S.n = 0
+  · have e : Gen.posterior_from_stat_normal_inv_chi_squared pr S = pr := by
+      simp [Gen.posterior_from_stat_normal_inv_chi_squared, Gen.GaussianSuffStat.get_n, hn]
+    rw [e, hn, hsx0 hn]
+    refine ⟨by simp, by simp, ?_, ?_⟩
+    · simp only [Nat.cast_zero, mul_zero, add_zero] <;> field_simp
+    · simp only [Nat.cast_zero, zero_mul, zero_div, add_zero] <;> field_simp
+  · have hkn : 0 < pr.k.val + (S.n : ℝ) := by positivity
+    have hvn : 0 < pr.v.val + (S.n : ℝ) := by positivity
+    have hkn' := hkn.ne'
+    have hvn' := hvn.ne'
+    have hb : ((S.n == 0) = false) := by simpa using hn
+    simp only [Gen.posterior_from_stat_normal_inv_chi_squared, Gen.NormalInvChiSquared.params,
+      Gen.GaussianSuffStat.get_n, Gen.GaussianSuffStat.sum_x_sq, Gen.GaussianSuffStat.get_mean, hb, Bool.false_eq_true,
+      if_false]
+    rw [NormalInvChiSquared_new_ok]
+    · refine ⟨?_, ?_, ?_, ?_⟩ <;>
+        simp only [mulAdd, RealLike.recip, R.add_val, R.sub_val, R.mul_val, R.div_val, R.neg_val, R.ofNatR_val,
+          lit1] <;> field_simp <;> ring
+    · simp only [R.add_val, R.ofNatR_val]; exact hkn
+    · simp only [R.add_val, R.ofNatR_val]; exact hvn
+    · have hpos : 0 < (pr.v.val * pr.s2.val + S.sx.val
+          + (S.n : ℝ) * pr.k.val * (pr.m.val - S.mean.val) ^ 2 / (pr.k.val + (S.n : ℝ))) / (pr.v.val + (S.n : ℝ)) := by
+        positivity
+      convert hpos using 1
+      simp only [mulAdd, RealLike.recip, R.add_val, R.sub_val, R.mul_val, R.div_val, R.neg_val, R.ofNatR_val, lit1]
+      field_simp
+      ring
+
+-- @site GaussianSuffStat.observe_real
+theorem GaussStat_fold_valid (xs : List R) (s : GStat) (h : 0 ≤ s.sx.val ∧ (s.n = 0 → s.sx.val = 0)) :
+    0 ≤ (xs.foldl Gen.GaussianSuffStat.observe_real s).sx.val
+    ∧ ((xs.foldl Gen.GaussianSuffStat.observe_real s).n = 0 → (xs.foldl Gen.GaussianSuffStat.observe_real s).sx.val = 0) := by
+  induction xs generalizing s with
+  | nil => simpa using h
+  | cons x xs ih =>
+    rw [List.foldl_cons]
+    exact ih _ ⟨GaussStat_obs_sx_nonneg s x h.1, by intro h0; simp [Gen.GaussianSuffStat.observe_real] at h0⟩
+
+-- @site GaussianSuffStat.observe_real
+theorem gfold_valid (xs : List R) : 0 ≤ (gfold xs).sx.val ∧ ((gfold xs).n = 0 → (gfold xs).sx.val = 0) :=
+  GaussStat_fold_valid xs _ (by simp only [Gen.GaussianSuffStat.new, lit0]; exact ⟨le_refl _, fun _ => trivial⟩)
 
 end C06L
